@@ -23,7 +23,7 @@ d("c10-saving-skip-refit-same-shape", "C10", "skchange/anomaly_scores/from_cost.
   "Saving skips the optimised cost's refit when the data shape is unchanged")
 d("c10-mw-fit-mutates-hyperparam", "C10", "skchange/change_detectors/moving_window.py",
   "        self.threshold_ = self._get_threshold(X)\n        return self",
-  "        self.min_detection_interval = max(1, min(self.min_detection_interval, X.shape[0] // 4))\n        self.threshold_ = self._get_threshold(X)\n        return self",
+  "        self.min_detection_interval = max(1, min(self.min_detection_interval, X.shape[0] // 8))\n        self.threshold_ = self._get_threshold(X)\n        return self",
   "MovingWindow._fit clips a hyper-parameter in place")
 d("c10-pelt-scores-cached", "C10", "skchange/change_detectors/pelt.py",
   "        self.predict(X)\n        return self.scores",
